@@ -6,6 +6,18 @@ HERE = os.path.dirname(os.path.abspath(__file__))
 TECH = "deterministic simulation with fault injection: seeded runs of the real library on a simulated block device (SimDisk); "
 
 CHECKS = {
+ "C01": dict(level="exploration", design="§5 C01",
+   text="Seeded operation histories (mkdir, create, write at start/inside/EOF/EOF+gap, append, truncating open, rename incl. rename-over, remove, fill-until-refused/empty/refill cycles, held handles, reopen) on FAT12/16/32 volumes of seeded size and start offset inside a larger noise-filled simulated device; after every operation listings, sizes and contents are compared with an in-memory tree, live, through the writing handle and after re-opening the image from its bytes; refused calls must leave every other path unchanged; a refill must reach the first fill's capacity.",
+   note="Seeded sampling of histories (not exhaustive). Trusted: reference tree, SimDisk. Operations whose preconditions fail in the model are skipped; names restricted to the legal-name domain; device EIO not injected; 'full' is produced by the workload.",
+   technique=TECH+"seeded operation histories vs in-memory reference tree with volume-full faults and reopen-from-bytes"),
+ "C03": dict(level="exploration", design="§5 C03",
+   text="The simulated device checks every WriteAt against the exact byte range the component was given (filesystem range, partition, or the table's own sectors as computed by an independent parser) and compares guard-band hashes; workloads: FAT histories biased to fill-until-refused at starts 0/512/1 MiB/5 GiB with sizes not a multiple of the cluster size, partition-content streaming with short/exact/long readers beyond 4 GiB, GPT/MBR table writes on noise disks.",
+   note="Seeded sampling. The write guard is raised at the call with the library call site. ext4/ISO9660/squashfs workloads are added as those harnesses exist (see evidence: workloads run).",
+   technique=TECH+"device-seam write-range monitor (every WriteAt range-checked, guard bands hashed) under fill-to-ENOSPC workloads"),
+ "C08": dict(level="exploration", design="§5 C08",
+   text="Same seeded FAT histories as C01; after Create and after every operation, accepted or refused, an independent FAT12/16/32 reader written from the specification checks the raw bytes: BPB geometry equals the range given, FAT32 backup boot sector and FSInfo, identical FAT copies, chains in range/terminated/long enough, no cross-links, no lost clusters, no used FAT entries beyond the last cluster.",
+   note="Seeded sampling. The independent reader is our own (fsck.fat is not installed) and decodes the volume as the type the creator asked for; '.'/'..' entries are not judged.",
+   technique=TECH+"seeded histories with an independent structural reader evaluated on the device bytes after every step"),
  "C02": dict(level="exploration", design="§5 C02",
    text="Seeded histories of 1..4 GPT/MBR table writes (0..128 sparse/unordered GPT entries, three size spellings, non-BMP names, auto GUIDs from a seeded entropy source, any MBR type/start/size) through Disk.Partition and Table.Write on simulated disks from the minimum to 3 TiB with 512/4096-byte sectors, blank or noise-filled, power-cycled at return; read back with gpt.Read/mbr.Read/partition.Read/Disk.GetPartition against the table model and validated by an independent GPT/MBR parser (both header CRCs, both array CRCs, backup mirrors primary, protective MBR), plus rewrite-of-read-table idempotence.",
    note="Exploration by seeded sampling: a clean batch is evidence, not proof. Trusted: table model (the spec list itself), independent parser, SimDisk. The codec core has no schedule/clock dimension; the live simulator dimensions are device geometry, predecessor bytes, entropy and the power cycle.",
